@@ -4,6 +4,7 @@
   Together with `Cspuz.C11.C11_compose` this yields the property for this puzzle.
 -/
 import CspuzModel.Proofs.C11Slitherlink
+import CspuzModel.Proofs.C11LoopEx
 namespace Cspuz.C11.Slitherlink
 open Cspuz Cspuz.Spec Cspuz.Puzzles.Slitherlink Cspuz.Spec.Slitherlink
 
@@ -37,5 +38,32 @@ example : ∃ P, program exPb = .ok P ∧ P.keys = List.range 7 ∧ P.decls.leng
     simp only [exPb, List.mem_singleton] at hr
     subst hr; rfl
   · simp [Cspuz.Proofs.C11Loop.cyc_decls_length, Frame.numVars, exPb]
+
+/-! ### non-vacuity of the rules: the 1 × 1 board with clue 4 is solved by the loop around the cell, and hence (by the
+theorem) the posted program has a model with all four segment variables true -/
+
+def exPb4 : Problem := { height := 1, width := 1, problem := [[4]] }
+
+theorem exPb4_wf : WellFormed exPb4 := by
+  refine ⟨rfl, ?_⟩
+  intro row hr
+  simp only [exPb4, List.mem_singleton] at hr
+  subst hr; rfl
+
+open Cspuz.Spec.Loop in
+theorem exPb4_rules : Rules exPb4 (segAnswer 1 1 fun _ => true) := by
+  refine ⟨fun _ => true, rfl, Cspuz.Proofs.C11LoopEx.unitLoop, ?_⟩
+  intro y hy x hx _
+  have hy0 : y = 0 := by simp only [exPb4] at hy; omega
+  have hx0 : x = 0 := by simp only [exPb4] at hx; omega
+  subst hy0 hx0
+  decide
+
+open Cspuz.Spec.Loop in
+example : ∃ P σ, program exPb4 = .ok P ∧ Sat P.decls P.cs σ ∧
+    P.keyVals σ = (segAnswer 1 1 fun _ => true).map some := by
+  obtain ⟨P, hP⟩ := total exPb4 exPb4_wf
+  obtain ⟨σ, hσ, hk⟩ := ((program_iff_rules exPb4 exPb4_wf P hP).1 _).mpr exPb4_rules
+  exact ⟨P, σ, hP, hσ, hk⟩
 
 end Cspuz.C11.Slitherlink
